@@ -1,6 +1,7 @@
 import Lemmas.QuadTreeTree
 import Lemmas.QuadTreeGeom
 import Lemmas.QuadTreeFuel
+import Lemmas.QuadTreeFuelTree
 /-! # C07 — QuadTree queries return exactly what a linear scan of the stored nodes would
 
 Property theorems only.  `QT.Tree` / `QT.Node` are the executable model of `collection/quadtree` (`Model/QuadTree.lean`)
@@ -198,6 +199,36 @@ theorem reorganize_depth_int (threshold fuel : Nat) (rect : Rect Int) (hr : rect
   obtain ⟨a, b⟩ := reorgFold_good rect threshold fuel items (Node.leaf rect [], []) trivial rfl hr
   have := depth_le_meas _ a (by rw [b]; exact hr)
   rw [b] at this; exact this
+
+/-- **fuel suffices, for every history**: if every inserted non-empty integer rectangle lies within a box and the fuel
+    exceeds `W + H` of the box, then after any history (contract `OpOK` as in `abs_run`), and after each of its
+    prefixes — the driver answers after every operation —, no node of the tree is deeper than `W + H` of the box and
+    the driver's criterion `Tree.fuelOK` holds, i.e. the fuelled model never answers `out-of-fuel` on integer
+    rectangles -/
+theorem fuel_suffices_int (bounds : Nat → Rect Int) (box : Rect Int) (fuel : Nat) (k : Int)
+    (ops : List (Op (Rect Int))) (hops : ∀ op ∈ ops, OpOK bounds op) (hbox : ∀ op ∈ ops, InBox box op)
+    (hfuel : (box.w + box.h).toNat < fuel) (n : Nat) :
+    (Tree.run fuel k (ops.take n)).fuelOK fuel = true ∧
+    ∀ r, (Tree.run fuel k (ops.take n)).root = some r → r.depth ≤ (box.w + box.h).toNat := by
+  have hf := run_finv bounds box fuel k (ops.take n) (fun op h => hops op (List.mem_of_mem_take h))
+    (fun op h => hbox op (List.mem_of_mem_take h))
+  have key : ∀ r, (Tree.run fuel k (ops.take n)).root = some r → r.depth ≤ (box.w + box.h).toNat := by
+    intro r hr
+    obtain ⟨g, ne, hb⟩ := hf.root r hr
+    exact Nat.le_trans (depth_le_meas r g ne) (meas_mono box r.rect hb)
+  refine ⟨?_, key⟩
+  unfold Tree.fuelOK
+  cases hr : (Tree.run fuel k (ops.take n)).root with
+  | none => rfl
+  | some r => simp only [decide_eq_true_eq]; exact Nat.lt_of_le_of_lt (key r hr) hfuel
+
+/-- **the fuel does not influence the result**: on a good non-empty integer node any two fuels of at least `W + H` of
+    its rectangle give the same tree, so the fuel-0 fallback is never taken and the fuelled recursion computes what the
+    unbounded recursion of the Go code computes -/
+theorem fuel_independent_int (threshold f f' : Nat) (n : Node (Rect Int)) (it : Item (Rect Int)) (hn : Good n)
+    (hr : n.rect.empty = false) (h1 : (n.rect.w + n.rect.h).toNat ≤ f) (h2 : (n.rect.w + n.rect.h).toNat ≤ f') :
+    Node.insert threshold f n it = Node.insert threshold f' n it :=
+  insert_fuel_indep threshold f f' n it hn hr h1 h2
 
 /-- the step this rests on: when an integer node splits (`canSplit`: half-width or half-height positive), every child
     that can receive an item (non-empty child) has a strictly smaller `W + H` than its parent — including child 0
